@@ -121,9 +121,10 @@ SealStrict ==
         /\ SelectSeq(E.pub, notextra) = E.cleanpub
         /\ \A p \in RootDiff : \E i \in 1..Len(E.pub) : E.pub[i].a = p[1] /\ E.pub[i].t = RootLog(p[2])
         /\ UseDev("Dev_RevertedCreationLeavesEmptyRoot")
-  \* what is saved is what was executed
+  \* what is saved is what was executed (Save writes the accounts that have published logs)
   /\ E.serr = ""
-  /\ Drop(E.saved, Volatile) = Drop(E.obs, Volatile)
+  /\ \A i \in 1..Len(E.pub) : LET a == E.pub[i].a IN
+        [f \in DOMAIN E.saved[a] \ Volatile |-> E.saved[a][f]] = [f \in DOMAIN E.obs[a] \ Volatile |-> E.obs[a][f]]
   \* the replay of the published logs gives the executed state, roots included
   /\ \/ Drop(E.redo, EvMask) = Drop(Ideal, EvMask)
      \/ /\ Drop(E.redo, Roots \cup EvMask) # Drop(E.obs, Roots \cup EvMask)
